@@ -5,6 +5,7 @@ package harness
 // on the same run (a check only counts the violations of its own property).
 
 import (
+	"github.com/flant/shell-operator/pkg/task/queue"
 	"context"
 	"fmt"
 	"sort"
@@ -23,7 +24,9 @@ func init() {
 	register(&Workload{Name: "opsim", Run: runOpsimWL})
 	plans["C01"] = append(plans["C01"],
 		Part{WL: "opsim", Cfg: "prop=C01", Quick: 250, Thor: 6000},
-		Part{WL: "opsim", Cfg: "prop=C01,t=T1", Quick: 100, Thor: 3000})
+		Part{WL: "opsim", Cfg: "prop=C01,t=T1", Quick: 100, Thor: 3000},
+		// hook failures: a failed (combined) Synchronization is retried; its bindings must all be unlocked in the end
+		Part{WL: "opsim", Cfg: "prop=C01,fail=40", Quick: 300, Thor: 6000})
 	plans["C02"] = []Part{
 		{WL: "opsim", Cfg: "prop=C02", Quick: 250, Thor: 8000},
 		{WL: "opsim", Cfg: "prop=C02,t=T1", Quick: 120, Thor: 4000},
@@ -34,6 +37,7 @@ func init() {
 		{WL: "opsim", Cfg: "prop=C17", Quick: 300, Thor: 8000},
 		{WL: "opsim", Cfg: "prop=C17,stopk=300", Quick: 300, Thor: 8000},
 		{WL: "opsim", Cfg: "prop=C17,t=T1", Quick: 100, Thor: 3000},
+		{WL: "opsim", Cfg: "prop=C17,stopat=wait", Quick: 300, Thor: 8000},
 	}
 	plans["C18"] = []Part{
 		{WL: "opsim", Cfg: "prop=C18", Quick: 400, Thor: 10000},
@@ -41,6 +45,8 @@ func init() {
 	plans["C09"] = []Part{
 		{WL: "opsim", Cfg: "prop=C09", Quick: 400, Thor: 8000},
 		{WL: "opsim", Cfg: "prop=C09,t=T1", Quick: 150, Thor: 3000},
+		// change points inside the jq evaluation and the informer callbacks of concurrent bindings
+		{WL: "opsim", Cfg: "prop=C09,focus=jq+ri,k=500", Quick: 250, Thor: 6000},
 	}
 	plans["C03"] = []Part{
 		{WL: "opsim", Cfg: "prop=C03", Quick: 400, Thor: 8000},
@@ -89,7 +95,7 @@ func presetFor(prop string) opsimOpts {
 		o.Writes = 14
 	case "C03":
 		o.Slow, o.MaxHooks, o.Sched = true, 3, 60
-	case "C04":
+	case "C04", "C07":
 		o.FailPct, o.Sched, o.StartupFail = 40, 40, true
 		o.MaxKube, o.Writes, o.Slow04 = 3, 20, true
 	case "C06":
@@ -181,8 +187,9 @@ func genScenario(e *Env, o opsimOpts) *Scenario {
 				if wl.Bias(1, 5) {
 					b.NameSel = []string{"o0", "o1"}
 				}
-				if wl.Bias(1, 3) {
-					b.JqFilter = `{"v": .data.v}`
+				if (o.Prop == "C09" && wl.Bias(2, 3)) || (o.Prop != "C09" && wl.Bias(1, 3)) {
+					// several expressions: concurrent bindings evaluate different filters
+					b.JqFilter = []string{`{"v": .data.v}`, `{"v": .data.v}`, `{"n": .metadata.name, "ns": .metadata.namespace}`, `{"l": .metadata.labels}`, `{"d": .data, "k": .kind}`}[wl.Choose(5)]
 					if wl.Bias(1, 2) {
 						b.DropObjects = true
 					}
@@ -327,8 +334,8 @@ func runOpsimWL(e *Env) {
 		opts = presetFor(prop + "many")
 	}
 	opts.Faults = e.CfgIs("t", "T1")
-	if e.CfgIs("fail", "0") {
-		opts.FailPct = 0
+	if _, ok := e.Cfg["fail"]; ok {
+		opts.FailPct = e.CfgInt("fail", 0) // percentage of (hook, first context) pairs that fail once or twice
 	}
 	s.MaxYield = 3000000
 	s.MaxStep = 150000
@@ -355,6 +362,7 @@ func runOpsimWL(e *Env) {
 				"queue":   "pkg/task/queue/task_queue.go",
 				"combine": "pkg/shell-operator/combine_binding_context.go",
 				"sched":   "pkg/hook/controller/schedule_bindings_controller.go",
+				"jq":      "pkg/filter/jq/",
 			}[x])
 		}
 	}
@@ -502,8 +510,47 @@ func runOpsimWL(e *Env) {
 		}
 		if opts.Shutdown {
 			k := fl.Choose(e.CfgInt("stopk", 2500))
+			stopAtWait := e.CfgIs("stopat", "wait")
 			simrt.GoNamed("stopper", func() {
-				simrt.BlockUntil("stop-point", func() bool { return s.Steps >= k })
+				if stopAtWait {
+					// fault placement biased to the end of a wait: shortly before the back-off after a
+					// failed execution elapses, or shortly after a task arrived (idle queues poll)
+					nth, useArrival := fl.Choose(3), fl.Choose(3) == 0
+					off := time.Duration(fl.Choose(700)) * time.Millisecond
+					base := len(o.Arrivals)
+					var trigger *Exec
+					simrt.BlockUntil("stop-trigger", func() bool {
+						if s.Steps >= 5000 {
+							return true
+						}
+						if useArrival {
+							return len(o.Arrivals) > base+nth
+						}
+						n := 0
+						for _, x := range o.Execs {
+							if x.Fail && x.EndSeq != 0 {
+								if n == nth {
+									trigger = x
+									return true
+								}
+								n++
+							}
+						}
+						return false
+					})
+					if useArrival {
+						simrt.Sleep(off / 2)
+						simrt.Count("probe:stop-placed-after-arrival")
+					} else if trigger != nil {
+						d := queue.DefaultInitialDelayOnFailedTask - 500*time.Millisecond + off - (e.Since() - trigger.End)
+						if d > 0 {
+							simrt.Sleep(d)
+						}
+						simrt.Count("probe:stop-placed-near-end-of-back-off")
+					}
+				} else {
+					simrt.BlockUntil("stop-point", func() bool { return s.Steps >= k })
+				}
 				simrt.Count("fault:shutdown-requested")
 				shutdownCalledAt = e.Since()
 				o.Op.Shutdown()
@@ -578,6 +625,7 @@ func runOpsimWL(e *Env) {
 		oracleC09(r)
 		oracleC03(r)
 		oracleC04(r)
+		oracleC07op(r)
 		oracleC06(r)
 		oracleC02(r)
 		oracleC01(r)
